@@ -453,6 +453,9 @@ func (r *run) settle() error {
 				cur += "!" // the ledger's notifications are still on their way
 				same = -1
 			}
+			if time.Since(lastChange) < 400*time.Millisecond && r.lagging(n) {
+				same = -1 // a payload taken / made by the node has not been announced to every connection yet: give it a moment
+			}
 			if n.queuedAt(int(n.bc.BlockHeight())+1) && time.Since(lastChange) < 400*time.Millisecond {
 				same = -1 // the service has put the next block into the queue: give the ledger a moment to take (or refuse) it
 			}
@@ -478,6 +481,14 @@ func (r *run) settle() error {
 			time.Sleep(300 * time.Microsecond)
 		}
 	}
+}
+
+func (r *run) lagging(n *node) bool {
+	ps := make([]*peer, 0, len(r.peers))
+	for _, p := range r.peers {
+		ps = append(ps, p)
+	}
+	return n.pendingRelay(ps)
 }
 
 // sync = settle + the projected state of every node read back from the real objects.
